@@ -405,9 +405,17 @@ func (s *sess) keys() {
 	for _, k := range ks {
 		parts = append(parts, hex.EncodeToString(k))
 	}
+	// the property speaks of the SET of keys: the traversal order of GetKeys is not compared
+	sort.Strings(parts)
 	s.op("keys", "keys "+strings.Join(parts, ","), len(ks) > 1)
 	if len(ks) != len(s.ref) {
 		s.fail(fmt.Sprintf("GetKeys returns %d keys, map has %d", len(ks), len(s.ref)))
+	}
+	for _, k := range ks {
+		if _, ok := s.ref[string(k)]; !ok {
+			s.fail(fmt.Sprintf("GetKeys lists %x, which the map does not hold", k))
+			break
+		}
 	}
 }
 
